@@ -8,6 +8,7 @@ import (
 	"context"
 	"encoding/json"
 	"fmt"
+	logslog "log/slog"
 	"strings"
 	"time"
 
@@ -123,6 +124,11 @@ func runC16(r *run) {
 				r.emit(strings.Join(toks, " "), "ok")
 			}
 		}
+		// a quarter of the records arrive through the log/slog adapter (the record's own time) instead of WriteThru
+		var viaHandler logslog.Handler
+		if g.chance(1, 4) {
+			viaHandler = slog.NewSlogHandler(l, &slog.HandlerOptions{NoColor: format != "color", JSON: format == "json", NoSource: true})
+		}
 		bits := g.intn(8)
 		local := g.chance(1, 2)
 		fl := base | slog.Flags(bits)
@@ -166,7 +172,11 @@ func runC16(r *run) {
 		}
 		zone := zones[g.intn(len(zones))]
 		t := time.Date(year, time.Month(1+g.intn(12)), 1+g.intn(28), g.intn(24), g.intn(60), g.intn(60), nano, zone)
-		l.WriteThru(ctx, slog.InfoLevel, t, 0, "m", nil)
+		if viaHandler != nil {
+			_ = viaHandler.Handle(ctx, logslog.NewRecord(t, logslog.LevelInfo, "m", 0))
+		} else {
+			l.WriteThru(ctx, slog.InfoLevel, t, 0, "m", nil)
+		}
 		w := rec.take()
 		text, ok := "", false
 		if len(w) == 1 {
@@ -215,7 +225,7 @@ func runC16(r *run) {
 		r.seen(fmt.Sprintf("%d|%v|%d|%s|%s|%s", bits, local, mode, src, format, zclass))
 		r.count("zone=" + map[bool]string{true: "utc", false: "own"}[wantUTC])
 		r.count("layout-from=" + src)
-		input := map[string]any{"instant": t.Format(time.RFC3339Nano), "flag_bits_date_time_micro": bits, "local_flag": local, "utc_mode": mode, "logger_layout": layout, "format": format}
+		input := map[string]any{"through_the_log_slog_adapter": viaHandler != nil, "instant": t.Format(time.RFC3339Nano), "flag_bits_date_time_micro": bits, "local_flag": local, "utc_mode": mode, "logger_layout": layout, "format": format}
 		if !ok || text != want {
 			r.violate(violation{What: "timestamp differs from the instant in the configured zone and layout", Input: input, Expected: want, Actual: text})
 		} else if strings.Contains(wantLayout, "MST") {
